@@ -370,9 +370,12 @@ class MergerConfig:
             return ""
 
         for rule_coord, rule_config in section.items():
-            if rule_coord.node == node_coord.node \
-                    and rule_coord.parent == node_coord.parent \
-                    and rule_coord.parentref == node_coord.parentref:
+            # The very node the rule's path matched, not one which merely
+            # looks like it (an equal Hash under another key, say)
+            if rule_coord.parent is node_coord.parent \
+                    and rule_coord.parentref == node_coord.parentref \
+                    and (rule_coord.parent is not None
+                         or rule_coord.node is node_coord.node):
                 return str(rule_config)
 
         return ""
